@@ -31,7 +31,7 @@ ASSUMPTIONS = [
     'a waiter may end with a result, an exception or a cancellation; only "still pending at T_v" is a violation',
 ]
 MIN_EVENTS = {
-    'quick': {'cut_runs': 600, 'cuts_before_completion': 250, 'table_checks': 600, 'leftover_checks': 600},
+    'quick': {'cut_runs': 1000, 'cuts_before_completion': 500, 'table_checks': 1000, 'leftover_checks': 1000},
     'thorough': {'cut_runs': 3000, 'cuts_before_completion': 1200, 'table_checks': 3000, 'leftover_checks': 3000},
 }
 CASE_TIMEOUT = 900
@@ -48,7 +48,7 @@ def plan(tier, seed):
     for p in PROCS:
         for c in CUTS:
             cases.append({'kind': 'cut', 'proc': p, 'cut': c, 'seed': seed * 1000003 + len(cases),
-                          'max_points': 12 if tier == 'quick' else 10 ** 6})
+                          'max_points': 24 if tier == 'quick' else 10 ** 6})
     return cases
 
 
@@ -101,8 +101,9 @@ async def build(case, proc):
             await vloop.vwait(ctx['char'].subscribe(lambda v: None, prefer_notify=False))
         await rg.quiesce()
     if proc in ('coc-connect', 'coc-disconnect', 'coc-drain'):
-        acc = []
-        d1.create_l2cap_server(spec=l2cap.LeCreditBasedChannelSpec(psm=0x80, max_credits=4), handler=acc.append)
+        def accept(ch):
+            ch.sink = lambda data: None   # a consuming receiver (without a sink no credits are returned)
+        d1.create_l2cap_server(spec=l2cap.LeCreditBasedChannelSpec(psm=0x80, max_credits=4), handler=accept)
         if proc != 'coc-connect':
             ctx['chan'] = await vloop.vwait(c0.create_l2cap_channel(spec=l2cap.LeCreditBasedChannelSpec(psm=0x80, max_credits=4)))
             await rg.quiesce()
@@ -279,6 +280,8 @@ async def scenario(case, r, proc, cut, cut_at):
         outcome = outcome + '+no-quiescence'
     n = len(rg.hci_log) - start
     if cut_at is None:
+        if outcome != 'ok':
+            raise RuntimeError(f'dry run of {proc} did not complete normally: {outcome}')
         return n
     if not fired:
         # the procedure needed fewer messages this time; apply the cut now (after completion)
@@ -369,7 +372,7 @@ def run_case(case, r: R):
 
 
 LEVEL_TEXT = ('Fault enumeration: for 17 procedures x 4 cut kinds the link is dropped or the HCI transport lost at every '
-              'HCI-message index of the procedure (thorough; a spread of <= 12 indices per pair in quick), each on a '
+              'HCI-message index of the procedure (thorough; a spread of <= 24 indices per pair in quick), each on a '
               'fresh rig; afterwards the waiter must have ended within 300 virtual seconds, host/device/controller '
               'connection tables must agree and no per-connection state of the dead connection may remain in GATT '
               'server, SMP, L2CAP or the outbound queues.')
